@@ -190,7 +190,9 @@ func createCompiledRouteHandler(route *ast.Route, bytecode []byte, wsHub *websoc
 
 		// Parse and inject request body as 'input' for POST/PUT/PATCH requests
 		inputObject := true
-		if ctx.Request.Method == "POST" || ctx.Request.Method == "PUT" || ctx.Request.Method == "PATCH" {
+		// DELETE may carry a body too (RFC 7231); executeRoute reads it for
+		// interpreted routes, so compiled routes must as well.
+		if ctx.Request.Method == "POST" || ctx.Request.Method == "PUT" || ctx.Request.Method == "PATCH" || ctx.Request.Method == "DELETE" {
 			contentType := ctx.Request.Header.Get("Content-Type")
 			shouldParseJSON := contentType == "" ||
 				contentType == "application/json" ||
